@@ -18,7 +18,8 @@ EXPLANATION = (
     "(`i < 6`, `0..length` with literal lengths at every call site) are recognised as bounded; (3) interval "
     "assembly: start/duration uses add(), duration/end uses subtract(), both with the same 8 components of "
     "the same duration; the attributes read exist on both Duration classes (.pyi, Rust getters, pendulum); "
-    "(4) both arms of the back-end switch export Duration/parse_iso8601. NOT decided: exact rational rounding "
+    "(4) ROUND-LAST on MIR: in the compiled parser's fraction carry chain f64::round may only be applied where the value "
+    "becomes the integer microsecond count, never to an intermediate that is split further.  NOT decided: exact rational rounding "
     "of a fraction to the microsecond (float arithmetic)."
 )
 
@@ -182,6 +183,43 @@ def _rust_arith(ctx) -> None:
                    "rust/src/parsing.rs", nontrivial=bool(ints))
 
 
+def _rust_round_last(ctx) -> None:
+    """In the fraction carry chain of the compiled parser a value may be rounded only where it is turned into the
+    integer number of microseconds; rounding an intermediate (minutes, seconds) discards the rest of the fraction."""
+    try:
+        mir = mirfront.load()
+    except mirfront.MirUnavailable:
+        return
+    f = mir.fn("parse_duration")
+    n = 0
+    for _b, s in f.calls():
+        if not s.callee.endswith("::round") or "f64" not in s.callee or not s.dest:
+            continue
+        n += 1
+        res = {s.dest}
+        # follow plain copies
+        changed = True
+        while changed:
+            changed = False
+            for _b2, t in f.all_stmts():
+                if t.op == "use" and t.dest and t.args and t.args[0] in res and t.dest not in res:
+                    res.add(t.dest)
+                    changed = True
+        bad = []
+        for _b2, t in f.all_stmts():
+            if t is s:
+                continue
+            if t.op in ("Sub", "Mul", "Add", "Div") and any(a in res for a in t.args):
+                bad.append(t.raw)
+            if t.op == "call" and any(a in res for a in t.args) and (t.callee.endswith("::trunc") or t.callee.endswith("::floor")):
+                bad.append(t.raw)
+        name = f.names().get(s.dest, s.dest)
+        ctx.ob("ROUND-LAST", f"rs:parse_duration/round->{name}", not bad,
+               f"`{s.raw[:80]}` rounds `{name}`" + (f", which then feeds {bad[:2]}: the sub-unit part of the fraction is "
+               f"discarded before the microseconds are taken" if bad else " at the microsecond stage only"), "rust/src/parsing.rs")
+    ctx.count("rust_round_calls", n)
+
+
 def _interval_assembly(ctx) -> None:
     m = pmod("parser")
     fn = m.func("_parse")
@@ -235,6 +273,7 @@ def run(ctx) -> None:
     ctx.explanation = EXPLANATION
     _fraction_scale(ctx)
     _rust_arith(ctx)
+    _rust_round_last(ctx)
     _interval_assembly(ctx)
     ctx.expect_min("FRACTION-SCALE", 6)
     ctx.expect_min("INTERVAL.assembly", 5)
